@@ -95,6 +95,8 @@ def warm_tables():
     codes_with(())
     first_use_index()
     _index_ops()
+    write_ops()
+    ops_of_tool(None)
 
 
 def gen_directed(seed, rng):
@@ -157,9 +159,83 @@ def _subject(name):
     return parts[2] if parts[0] == "parse_xml" else parts[1]
 
 
+_write_ops = []
+
+
+def write_ops():
+    """Operations that assign attributes of long-lived objects on a warm call (none on the pinned tree)."""
+    if not _write_ops and core.Z.cov_writes:
+        _write_ops.extend(sorted(n for n, w in core.Z.cov_writes.items() if w and not core.Z.op_by_name[n].needs))
+        if not _write_ops:
+            _write_ops.append(None)
+    return [n for n in _write_ops if n]
+
+
+_tool_ops = {}
+
+
+def ops_of_tool(tool):
+    if not _tool_ops:
+        for op in core.Z.ops:
+            if op.tool and not op.needs:
+                _tool_ops.setdefault(op.tool, []).append(op.name)
+    return _tool_ops.get(tool, [])
+
+
+def following_lines(loc, count=3):
+    """`loc` and the next lines of the same function(s): the window in which a per-call write is visible."""
+    out = [loc]
+    for code in codes_with([loc]):
+        lines = sorted({ln for _, _, ln in code.co_lines() if ln is not None})
+        here = int(loc.rsplit(":", 1)[1])
+        nxt = [ln for ln in lines if ln > here][:count]
+        out += [S.short_loc(code, ln) for ln in nxt]
+    return sorted(set(out))
+
+
+def gen_write_directed(seed, rng):
+    """A call that writes per-call state onto a shared object is pre-empted right after the write while
+    another call uses the same shared parser/serializer (strikes on warm instances as well)."""
+    names = write_ops()
+    if not names:
+        return None
+    a = rng.choice(names)
+    w = rng.choice(sorted(core.Z.cov_writes[a]))
+    hot = following_lines(w, rng.choice([1, 2, 4]))
+    tool = core.Z.op_by_name[a].tool
+    peers = ops_of_tool(tool) or [o.name for o in core.Z.ops if not o.needs]
+    anyop = [o.name for o in core.Z.ops if not o.needs]
+    n = rng.choice([2, 2, 3, 4])
+    threads = [[a]]
+    for _ in range(n - 1):
+        threads.append([rng.choice(peers) if rng.random() < 0.8 else rng.choice(anyop)])
+    warm = []
+    if rng.random() < 0.5:
+        warm = [nm for prog in threads for nm in prog]
+    rng.shuffle(threads)
+    return {
+        "seed": seed,
+        "threads": threads,
+        "warmup": warm,
+        "shared_tools": True,
+        "mode": "hotonly",
+        "opcode": False,
+        "hot": hot,
+        "p_hot": rng.choice([0.5, 1.0]),
+        "p": 0.0,
+        "loc_cap": rng.choice([1, 2, 3]),
+        "max_switches": rng.choice([2, 4, 8]),
+        "strategy": "write-directed",
+    }
+
+
 def gen_spec(seed):
     """Everything about a run except the schedule, which the seeded scheduler decides on the fly."""
     rng = random.Random(seed)
+    if core.Z.cov_writes and write_ops() and rng.random() < 0.3:
+        spec = gen_write_directed(seed, rng)
+        if spec:
+            return spec
     if core.Z.cov_first and rng.random() < 0.45:
         spec = gen_directed(seed, rng)
         if spec:
@@ -261,6 +337,19 @@ def run_spec(spec, R, timeout=20.0):
     programs = spec["threads"]
     n = len(programs)
     byname = core.Z.op_by_name
+    sch = S.Scheduler(
+        n,
+        rng=rng,
+        schedule=explicit,
+        p_preempt=spec.get("p", 0.3),
+        loc_cap=spec.get("loc_cap", 2),
+        max_switches=spec.get("max_switches", 64),
+        step_cap=spec.get("step_cap", 3_000_000),
+        hot=spec.get("hot", ()),
+        p_hot=spec.get("p_hot", 0.9),
+    )
+
+    S.install_sim_locks(sch)
     env = O.Env()
     viol = []
     results = []  # (thread, index, opname, record, m0, m1)
@@ -312,18 +401,6 @@ def run_spec(spec, R, timeout=20.0):
             e.tools = {}
             e.prepare([byname[nm] for nm in prog if not nm.startswith("import:")])
             envs.append(e)
-
-    sch = S.Scheduler(
-        n,
-        rng=rng,
-        schedule=explicit,
-        p_preempt=spec.get("p", 0.3),
-        loc_cap=spec.get("loc_cap", 2),
-        max_switches=spec.get("max_switches", 64),
-        step_cap=spec.get("step_cap", 3_000_000),
-        hot=spec.get("hot", ()),
-        p_hot=spec.get("p_hot", 0.9),
-    )
 
     # index-integrity probe at the point of observation
     ref_ctx = {}
@@ -411,7 +488,8 @@ def run_spec(spec, R, timeout=20.0):
         "switches": sch.nswitch,
         "nthreads": n,
         "hot_hits": sch.hot_hits,
-        "mode": spec.get("mode", "shared") + ("/opcode" if spec.get("opcode") else "") + ("/directed" if spec.get("strategy") == "directed" else ("/hot" if spec.get("hot") else "")),
+        "lock_waits": sch.lock_waits,
+        "mode": spec.get("mode", "shared") + ("/opcode" if spec.get("opcode") else "") + ("/" + spec["strategy"] if spec.get("strategy") else ("/hot" if spec.get("hot") else "")),
         "nops": stats["ops"],
         "imports": stats["imports"],
         "wall": wall,
